@@ -407,6 +407,10 @@ def emit(r, rng, name, policy, reg_style, flavours, leave_out=None):
                 body = probe + ["    g_next_ptr = (void*)next_%d_%d;" % (mi, di), "    return %d;" % (100 * mi + di)]
                 L.append("static int def_%d_%d(%s) {\n%s\n}" % (mi, di, plist, "\n".join(body)))
                 L.append("static M%d::add_function<def_%d_%d> reg_%d_%d(&next_%d_%d);" % (mi, mi, di, mi, di, mi, di))
+                if rng.random() < 0.15:
+                    # a second registration object for the same definition (e.g. the same header in two
+                    # translation units): the definition is registered once
+                    L.append("static M%d::add_function<def_%d_%d> reg_again_%d_%d(&next_%d_%d);" % (mi, mi, di, mi, di, mi, di))
             else:  # definition container: next from next<> / use_next<>, a next member of its own, or none
                 if cont_flavour in ("next<>", "use_next<>"):
                     L.append("struct cont_%d_%d : M%d::%s<cont_%d_%d> {" % (mi, di, mi, cont_flavour[:-2], mi, di))
@@ -453,6 +457,8 @@ def emit(r, rng, name, policy, reg_style, flavours, leave_out=None):
         main.append("    };")
     main.append("    bool update_threw = false; type_id update_type = 0;")
     main.append("    decltype(update<%s>().report) report{};" % P)
+    if P == "default_policy" and leave_out is None and rng.random() < 0.2:
+        main.append("    update_methods(); // the deprecated spelling")
     main.append("    try { report = update<%s>().report; } catch (unknown_class_error& e) { update_threw = true; update_type = e.type; }" % P)
     # objects
     for c in range(r.n):
